@@ -274,8 +274,19 @@ func cmdScaleSem(args []string) {
 				}
 			}
 		}
+		// variables read back at the end of the script (corpora with readBack): what is read is what was given
+		given, read := J{}, J{}
+		if o.St == "ok" {
+			for name, text := range vars {
+				if got, ok := o.TxMeta["zz_"+name]; ok {
+					if t := c.VarVals[name]["t"]; t == "num" || t == "mon" {
+						given[name], read[name] = text, got
+					}
+				}
+			}
+		}
 		line := J{"e": "scale", "prop": prop, "n": cnt, "id": cnt, "text": c.Text, "factor": U.String(), "small": postingsToJSON(er.outcome.Post), "smallst": er.outcome.St,
-			"big": bigPost, "st": o.St, "equal": equal, "rawvars": c.RawVars, "bal": c.Bal}
+			"big": bigPost, "st": o.St, "equal": equal, "rawvars": c.RawVars, "bal": c.Bal, "given": given, "read": read}
 		lw.write(line)
 		if len(er.outcome.Post) >= 2 {
 			nontriv++
